@@ -5,10 +5,11 @@ pub mod c05;
 pub mod c07;
 pub mod c08;
 pub mod c09;
+pub mod c10;
 pub mod c15;
 pub mod progx;
 pub mod vmgraph;
 
 pub fn all() -> Vec<PropSpec> {
-    vec![c05::spec(), c07::spec(), c08::spec(), c09::spec(), c15::spec()]
+    vec![c05::spec(), c07::spec(), c08::spec(), c09::spec(), c10::spec(), c15::spec()]
 }
